@@ -99,51 +99,47 @@ def collectP (p : P) (b : Bytes) (count : Nat) : P × Bytes × Option Bytes :=
   let (buf, rest, tmp) := collect p.buffer b count
   ({ p with buffer := buf }, rest, tmp)
 
-mutual
-/-- popState -/
-def popState (fuel : Nat) (p : P) : P × Bool × Option Err :=
-  onValue fuel (popSt p)
+/-- onValue: a value is complete; close every enclosing definite container that is now
+full.  Go: `onValue → arrayHandleLen/mapHandleLen → popState → onValue …`; every round pops
+one state, so the recursion is structural in `n`, which every caller passes as the current
+depth of the state stack (`p.state.stack.length`).  With an empty stack `pop` yields
+`stFail`, for which `onValue` reports `done`. -/
+def onValue : Nat → P → P × Bool × Option Err
+  | n, p =>
+    let m := p.state.current.major
+    if m == majorArr || m == majorMap then
+      let p := decLen p 1
+      if p.length.current > 0 then (p, false, none) else
+      match visit p (if m == majorArr then .arrEnd else .objEnd) with
+      | (p, some e) => (p, false, some e)
+      | (p, none) =>
+        match n with
+        | 0 => (popSt (popLen p), true, none)
+        | n + 1 => onValue n (popSt (popLen p))
+    else if m == (majorArr ||| stIndef) || m == (majorMap ||| stIndef) then (p, false, none)
+    else (p, true, none)
 
-/-- onValue: a value is complete; close every enclosing definite container that is now full -/
-def onValue (fuel : Nat) (p : P) : P × Bool × Option Err :=
-  let m := p.state.current.major
-  if m == majorArr then
-    arrayHandleLenD fuel (decLen p 1)
-  else if m == majorMap then
-    mapHandleLenD fuel (decLen p 1)
-  else if m == (majorArr ||| stIndef) || m == (majorMap ||| stIndef) then (p, false, none)
-  else (p, true, none)
+/-- popState = state.pop(); onValue() -/
+def popState (n : Nat) (p : P) : P × Bool × Option Err :=
+  match n with
+  | 0 => (popSt p, true, none)
+  | n + 1 => onValue n (popSt p)
 
-/-- arrayHandleLen, (done, err) part -/
-def arrayHandleLenD (fuel : Nat) (p : P) : P × Bool × Option Err :=
+/-- arrayHandleLen / mapHandleLen, (done, err) part; `isArr` selects the finish event -/
+def handleLenD (isArr : Bool) (n : Nat) (p : P) : P × Bool × Option Err :=
   if p.length.current > 0 then (p, false, none) else
-  match visit p .arrEnd with
+  match visit p (if isArr then .arrEnd else .objEnd) with
   | (p, some e) => (p, false, some e)
-  | (p, none) =>
-    match fuel with
-    | 0 => (p, false, some .outOfFuel)
-    | fuel + 1 => popState fuel (popLen p)
+  | (p, none) => popState n (popLen p)
 
-def mapHandleLenD (fuel : Nat) (p : P) : P × Bool × Option Err :=
-  if p.length.current > 0 then (p, false, none) else
-  match visit p .objEnd with
-  | (p, some e) => (p, false, some e)
-  | (p, none) =>
-    match fuel with
-    | 0 => (p, false, some .outOfFuel)
-    | fuel + 1 => popState fuel (popLen p)
-end
-
-/-- the recursion popState → onValue → handleLen → popState pops one state per round: the
-stack depth bounds it -/
-def closeFuel (p : P) : Nat := p.state.stack.length + 2
+def depth (p : P) : Nat := p.state.stack.length
 
 def onValueR (p : P) (rest : Bytes) : R :=
-  let (p, done, err) := onValue (closeFuel p) p
+  let (p, done, err) := onValue (depth p) p
   { p := p, rest := rest, done := done, err := err }
 
 def popStateR (p : P) (rest : Bytes) : R :=
-  let (p, done, err) := popState (closeFuel p) p
+  let (p, done, err) := popState (depth p) p
   { p := p, rest := rest, done := done, err := err }
 
 /-- visit, then on success onValue -/
@@ -329,14 +325,14 @@ def initMapKey (p : P) (b : Bytes) : R :=
 def stepArray (p : P) (b : Bytes) : R :=
   if p.length.current > 0 then stepValue p b
   else
-    let (p, done, err) := arrayHandleLenD (closeFuel p) p
+    let (p, done, err) := handleLenD true (depth p) p
     { p := p, rest := b, done := done, err := err }
 
 def stepMap (p : P) (b : Bytes) : R :=
   if p.length.current > 0 then
     if b.length > 0 then initMapKey p b else { p := p, rest := b }
   else
-    let (p, done, err) := mapHandleLenD (closeFuel p) p
+    let (p, done, err) := handleLenD false (depth p) p
     { p := p, rest := b, done := done, err := err }
 
 def indefArr (p : P) (b : Bytes) : R :=
